@@ -52,6 +52,14 @@ def cmd_check(a):
     if not make_ok and ok:
         # some other file of the development failed; this property's own closure compiled
         ctx.notes.append("make reported a failure outside this property's closure: " + tail[-300:])
+    if tier == "thorough" and ok:
+        chk_ok, chk = core.coqchk(pid)
+        ctx.notes.append("coqchk -silent -o ASTS.%s: %s" % (pid, chk))
+        obligations += 1
+        if chk_ok:
+            discharged += 1
+        else:
+            ok, err = False, "coqchk does not accept the compiled development: " + chk[:300]
     theorems = (obligations, discharged if ok else min(discharged, max(obligations - 1, 0)), details, ok, err)
     try:
         mod.run(ctx, tier)
